@@ -13,6 +13,7 @@ misses: most are equivalent (dead defensive branches, logging, code no property 
 (/verif/mutscan/triage.json).
 """
 import ast
+import fnmatch
 import glob
 import hashlib
 import json
@@ -365,10 +366,77 @@ def cmd_scan(args):
     run_stage("stageB.jsonl", stage_b, ms, args.jobs or 2)
 
 
+CORE = ("state/vehicle_state/", "state/simulation_state/", "state/driver_state/", "util/dict_ops.py", "model/station/", "model/base.py",
+        "model/vehicle/", "model/request/", "model/membership.py", "dispatcher/instruction_generator/dispatcher.py",
+        "dispatcher/instruction/instructions.py", "model/roadnetwork/linktraversal.py", "model/roadnetwork/routetraversal.py")
+C01_FILES = ("dispatcher.py", "step_simulation.py", "step_simulation_ops.py", "h3_ops.py", "dict_ops.py", "simulation_state.py",
+             "driver_instruction_ops.py", "charging_fleet_manager.py", "instruction_generator_ops.py", "tuple_ops.py")
+
+
+def stage_c(m):
+    """second pass over a survivor of stage B: the properties stage B did not try (all of them for the core files), and the full
+    C01 quick check for files where an iteration order could leak"""
+    root = os.path.join(WORK, "c_" + m["id"])
+    shutil.rmtree(root, ignore_errors=True)
+    os.makedirs(os.path.join(root, "tmp"))
+    try:
+        shutil.copytree(os.path.join(REPO, "nrel"), os.path.join(root, "nrel"), ignore=shutil.ignore_patterns("__pycache__"))
+        apply(m, root)
+        env = dict(os.environ, PYTHONHASHSEED="0", PYTHONPATH=root + os.pathsep + VERIF, HIVESIM_REPO=root, HIVESIM_OUT_DIR=os.path.join(root, "out"),
+                   HIVESIM_TMP=os.path.join(root, "tmp"), HIVESIM_NO_CORPUS="1", PYTHONDONTWRITEBYTECODE="1")
+        rel = m["file"].replace("nrel/hive/", "")
+        now = next((p.split() for pat, p in FILEMAP if fnmatch.fnmatch(rel, pat.replace("**/", "*"))), m["props"])
+        extra = [p for p in now if p not in m["props"]]
+        if rel.startswith(CORE) or rel in CORE:
+            extra += [p for p in ENGINE_ORDER if p not in m["props"] and p not in extra]
+        res = {"id": m["id"], "extra": extra}
+        t0 = time.time()
+        if extra:
+            r = subprocess.run([PY, "-m", "hivesim", "scan", ",".join(extra), "--runs", str(RUNS)], cwd=VERIF, env=env, capture_output=True, text=True, timeout=3000)
+            scans = [l for l in r.stdout.splitlines() if l.startswith("SCAN")]
+            hit = [l for l in scans if "caught=none" not in l and "caught=HARNESS" not in l]
+            if hit:
+                mm = re.match(r"SCAN property=(\S+) caught=(\S+)", hit[0])
+                res.update(c="caught", by=mm.group(1), key=mm.group(2), detail=hit[0][:400], wall=round(time.time() - t0, 1))
+                return res
+            if any("caught=HARNESS" in l for l in scans) or r.returncode not in (0, 1):
+                res.update(c="error", detail=(r.stdout + r.stderr)[-400:])
+                return res
+        if rel.endswith(C01_FILES):
+            r = subprocess.run([PY, "-m", "hivesim", "check", "C01", "--tier", "quick"], cwd=VERIF, env=env, capture_output=True, text=True, timeout=3000)
+            res["c01"] = r.returncode
+            if r.returncode == 1:
+                line = [l for l in r.stdout.splitlines() if l.startswith("  rule=")][:1]
+                res.update(c="caught", by="C01", key="C01/diverge", detail=(line or [""])[0][:300], wall=round(time.time() - t0, 1))
+                return res
+            if r.returncode == 2:
+                res.update(c="error", detail=r.stdout[-400:])
+                return res
+        res.update(c="survived", wall=round(time.time() - t0, 1))
+        return res
+    except Exception as e:
+        return {"id": m["id"], "c": "error", "detail": repr(e)[:300]}
+    finally:
+        shutil.rmtree(root, ignore_errors=True)
+
+
+def cmd_rescan(args):
+    global RUNS
+    RUNS = args.runs
+    b = {r["id"]: r for r in load("stageB.jsonl")}
+    ms = [m for m in load("mutants.jsonl") if b.get(m["id"], {}).get("b") == "survived"]
+    if args.only:
+        ms = [m for m in ms if args.only in m["file"]]
+    run_stage("stageC.jsonl", stage_c, ms, args.jobs or 2)
+
+
 def cmd_report(args):
     ms = {m["id"]: m for m in load("mutants.jsonl")}
     a = {r["id"]: r for r in load("stageA.jsonl")}
     b = {r["id"]: r for r in load("stageB.jsonl")}
+    for r in load("stageC.jsonl"):   # second pass over the survivors
+        if r.get("c") == "caught" and b.get(r["id"], {}).get("b") == "survived":
+            b[r["id"]] = dict(b[r["id"]], b="caught", by=r["by"], key=r.get("key"), second_pass=True)
     tri_p = os.path.join(VERIF, "mutscan", "triage.json")
     tri = json.load(open(tri_p)) if os.path.exists(tri_p) else {}
     out = {"generated": len(ms), "suite_run_on": len(a), "killed_by_the_suite": sum(1 for r in a.values() if r["a"] == "killed_by_tests"),
@@ -398,11 +466,11 @@ def cmd_report(args):
 if __name__ == "__main__":
     import argparse
     ap = argparse.ArgumentParser()
-    ap.add_argument("cmd", choices=["gen", "tests", "scan", "report"])
+    ap.add_argument("cmd", choices=["gen", "tests", "scan", "rescan", "report"])
     ap.add_argument("--limit", type=int, default=None)
     ap.add_argument("-j", "--jobs", type=int, default=None)
     ap.add_argument("--runs", type=int, default=150)
     ap.add_argument("--only", default=None)
     ap.add_argument("--all-props", action="store_true")
     a = ap.parse_args()
-    {"gen": cmd_gen, "tests": cmd_tests, "scan": cmd_scan, "report": cmd_report}[a.cmd](a)
+    {"gen": cmd_gen, "tests": cmd_tests, "scan": cmd_scan, "rescan": cmd_rescan, "report": cmd_report}[a.cmd](a)
